@@ -82,6 +82,9 @@ def generate(seed, tier):
                 structured.append(VALID[0].replace(b"CSeq: 1", b"CSeq: " + nv.encode()))
                 structured.append(VALID[0].replace(b"Max-Forwards: 70", b"Expires: " + nv.encode()))
                 structured.append(VALID[1].replace(b"rport=5062", b"rport=" + nv.encode()))
+            for nv in NUMS + ["-200", "-100", "-99", "700", "999", "65536", "-2147483648", "1000000"]:
+                # status codes: parseStatusLine accepts any integer
+                structured.append(VALID[1].replace(b"SIP/2.0 200 OK", b"SIP/2.0 " + nv.encode() + b" OK"))
             for miss in (b"Via", b"From", b"To", b"Call-ID", b"CSeq", b"Content-Length"):
                 structured.append(b"\r\n".join(l for l in VALID[0].split(b"\r\n") if not l.startswith(miss + b":")))
         for m in structured:
